@@ -29,7 +29,9 @@ func init() {
 
 func oracleC12(ctx *harness.Ctx, cs *harness.Case) (ds []harness.Discrepancy) {
 	src := cs.Input
-	add := func(sig, msg string) { ds = append(ds, harness.Discrepancy{Sig: sig, Msg: msg + " input=" + q(trunc(src, 160))}) }
+	add := func(sig, msg string) {
+		ds = append(ds, harness.Discrepancy{Sig: sig, Msg: msg + " input=" + q(trunc(src, 160))})
+	}
 	var pieces []*memefish.RawStatement
 	var err error
 	o := guarded(func() ([]astNode, error) { pieces, err = memefish.SplitRawStatements("", src); return nil, nil })
